@@ -357,3 +357,91 @@ Proof.
   intros L T batches HT Hs. rewrite (wgroupby_t_correct A h L T batches HT Hs). rewrite map_map. apply map_ext. intros p.
   simpl. unfold pd_groupby. rewrite map_map. simpl. apply map_id.
 Qed.
+
+(* ------------------------------------------------------------------------------------------------ *)
+(* diff_align: a streaming grouper (second zipped stream, `window.groupby(window.key)`) is decayed in step  *)
+(* with the frames, so it behaves exactly like a column grouper — row-count windows                          *)
+(* ------------------------------------------------------------------------------------------------ *)
+Definition K (dfs : list frame) : list (list Z) := map (map key) dfs.
+
+Lemma popn_app {B} (a b : list B) : popn (length a) (a ++ b) = (a, b).
+Proof. induction a as [|x a IH]; simpl; auto. now rewrite IH. Qed.
+
+Lemma popn_app' {B} n (a b : list B) : length a = n -> popn n (a ++ b) = (a, b).
+Proof. intros <-. apply popn_app. Qed.
+
+Lemma rekey_self f : rekey f (map key f) = f.
+Proof. induction f as [|r f IH]; simpl; auto. rewrite IH. destruct r; reflexivity. Qed.
+Lemma rekey_zip_self old : map (fun og => rekey (fst og) (snd og)) (zip old (K old)) = old.
+Proof. induction old as [|o t IH]; simpl; auto. now rewrite rekey_self, IH. Qed.
+
+Definition shape (dfs1 dfs' old : list frame) : Prop :=
+  (dfs1 = old ++ dfs') \/
+  (exists pre d rest m, 0 < m < length d /\ dfs1 = pre ++ d :: rest /\ dfs' = skipn m d :: rest /\ old = pre ++ [firstn m d]).
+
+Lemma drop_front_shape : forall dfs n, n <= total_len dfs ->
+  shape dfs (fst (drop_front dfs n)) (snd (drop_front dfs n)).
+Proof.
+  unfold total_len. induction dfs as [|d rest IH]; intros n Hn.
+  - destruct n; simpl in *; [left; reflexivity|lia].
+  - destruct (Nat.eq_dec n 0) as [->|Hn0]; [left; reflexivity|].
+    rewrite drop_front_cons by lia. cbn [concat] in Hn. rewrite app_length in Hn.
+    destruct (Nat.leb_spec (length d) n) as [Hle|Hgt]; cbn [fst snd].
+    + destruct (IH (n - length d) ltac:(lia)) as [E|(pre & d0 & rest0 & m & Hm & E1 & E2 & E3)].
+      * left. simpl. now rewrite <- E.
+      * right. exists (d :: pre), d0, rest0, m. split; auto. split; [simpl; now rewrite <- E1|]. split; auto.
+        simpl. now rewrite <- E3.
+    + right. exists [], d, rest, n. simpl. repeat split; auto; lia.
+Qed.
+
+Lemma diff_align_shape dfs1 dfs' old : shape dfs1 dfs' old -> diff_align dfs' (K dfs1) = (K old, K dfs').
+Proof.
+  unfold diff_align, K. intros [E|(pre & d & rest & m & Hm & E1 & E2 & E3)].
+  - subst dfs1. rewrite map_app.
+    rewrite (popn_app' _ (map (map key) old) (map (map key) dfs')) by (rewrite !app_length, !map_length; unfold frame; lia).
+    destruct dfs' as [|d t]; simpl; auto.
+    rewrite map_length, Nat.sub_diag. reflexivity.
+  - subst dfs1 dfs' old. rewrite !map_app. cbn [map].
+    rewrite (popn_app' _ (map (map key) pre) (map key d :: map (map key) rest))
+      by (rewrite !app_length; cbn [length]; rewrite !map_length; unfold frame; lia).
+    rewrite map_length, skipn_length.
+    destruct (Nat.eqb_spec (length d - (length d - m)) 0) as [E|E]; [lia|].
+    replace (length d - (length d - m)) with m by lia.
+    now rewrite firstn_map, skipn_map.
+Qed.
+
+Lemma diff_iloc_shape N (dfs : list frame) (new : frame) :
+  shape (if isnil new then dfs else dfs ++ [new]) (fst (diff_iloc N dfs new)) (snd (diff_iloc N dfs new)).
+Proof.
+  unfold diff_iloc. set (dfs1 := if isnil new then dfs else dfs ++ [new]).
+  destruct (isnil dfs1); [left; reflexivity|]. apply drop_front_shape. lia.
+Qed.
+
+Definition same_acc {A} (s c : gacc A) : Prop :=
+  g_dfs s = g_dfs c /\ g_state s = g_state c /\ g_size s = g_size c /\ g_groupers s = K (g_dfs s).
+
+Lemma gstep_streaming_n A N (s c : gacc A) new : same_acc s c ->
+  snd (gstep A true (WN N) s new) = snd (gstep A false (WN N) c new) /\
+  same_acc (fst (gstep A true (WN N) s new)) (fst (gstep A false (WN N) c new)).
+Proof.
+  intros (E1 & E2 & E3 & E4). unfold gstep. cbn [diff]. rewrite <- E1, <- E2, <- E3, E4.
+  pose proof (diff_iloc_shape N (g_dfs s) new) as Sh.
+  destruct (diff_iloc N (g_dfs s) new) as [dfs' old]. cbn [fst snd] in Sh.
+  assert (Eg : (if isnil (map key new) then K (g_dfs s) else K (g_dfs s) ++ [map key new]) =
+               K (if isnil new then g_dfs s else g_dfs s ++ [new])).
+  { unfold K. destruct new; simpl; auto. now rewrite map_app. }
+  rewrite Eg, (diff_align_shape _ _ _ Sh), rekey_zip_self.
+  cbn [fst snd]. split; [reflexivity|]. unfold same_acc. cbn [g_dfs g_state g_size g_groupers]. auto.
+Qed.
+
+Theorem wgroupby_streaming_n A N : forall batches,
+  grun A true (WN N) batches = grun A false (WN N) batches.
+Proof.
+  intros batches. unfold grun.
+  assert (G : forall bs s c, same_acc s c -> grun_from A true (WN N) s bs = grun_from A false (WN N) c bs).
+  { induction bs as [|b t IH]; intros s c Hs; [reflexivity|]. cbn [grun_from].
+    destruct (gstep_streaming_n A N s c b Hs) as [R S'].
+    destruct (gstep A true (WN N) s b) as [s' r1]. destruct (gstep A false (WN N) c b) as [c' r2].
+    cbn [fst snd] in *. subst r2. f_equal. now apply IH. }
+  apply G. unfold same_acc, gacc0. simpl. auto.
+Qed.
